@@ -565,6 +565,7 @@ func runFaultJob(c *Ctl, job *Job, idx int, res *RunResult) {
 		e.checkC14(x)
 	}
 	if prof.Checks["C08"] {
+		e.checkC01Shared()
 		e.checkC08()
 	}
 	if prof.Checks["C06S"] {
@@ -602,6 +603,11 @@ func GenContextWorld(ch *Choices, thorough bool) *IntegWorld {
 				pl.Exit = genExit(ch)
 			}
 			w.Plans[execID("ctx:"+cs.Name, "up", k, "")] = pl
+		}
+		if cs.NBefore > 0 && ch.Bool(1, 8, "ctx-before-fails") {
+			// the context's before hook fails: the tasks of the context cannot run (each reports the
+			// error), the context is still taken down at shutdown
+			w.Plans[execID("ctx:"+cs.Name, "before", ch.Choose(cs.NBefore, "ctx-before-which"), "")] = &ExecPlan{Exit: genExit(ch)}
 		}
 		for k := 0; k < cs.NDown; k++ {
 			if ch.Bool(1, 5, "down-fails") {
